@@ -510,6 +510,21 @@ def check_det(case, M, rng, g, res):
     elif mode == "hand":
         pg = ProbDetGrammar(g, {S: {P: float(w) for P, w in zip(g.rules[S], split_dyadic(wrng, len(g.rules[S]), False))} for S in g.rules})
         before = {S: dict(row) for S, row in pg.tags.items()}
+        if case["wseed"] % 2 == 0:
+            # history: the grammar is queried while its weights are not normalised yet; nothing memoised then may
+            # survive normalise()
+            for t in terms[:12]:
+                try:
+                    rp = to_repo(t, objs)
+                    pg.probability(rp)
+                    rp in pg
+                except Exception:  # noqa
+                    pass
+            try:
+                pg.programs()
+            except Exception:  # noqa
+                pass
+            tags.append("history:queried-before-normalise")
         pg.normalise()
     else:   # samples
         pool = terms if not case["bad_samples"] else terms + neighbours(rng, terms, heads, 10)
@@ -797,6 +812,19 @@ def check_u(case, M, rng, cfg, res):
         t, st = dy(False)
         before = ({S: {P: dict(d) for P, d in row.items()} for S, row in t.items()}, dict(st))
         pu = ProbUGrammar(u, t, st)
+        if case["wseed"] % 2 == 0:
+            for t_ in terms[:12]:
+                try:
+                    rp = to_repo(t_, objs)
+                    pu.probability(rp)
+                    rp in pu
+                except Exception:  # noqa
+                    pass
+            try:
+                pu.programs()
+            except Exception:  # noqa
+                pass
+            tags.append("history:queried-before-normalise")
         pu.normalise()
     conv = lambda w: fr_wire(Fraction(w))  # noqa
     ops = M.ask([Sym("c04.uops"), uw, utags_wire(before[0], before[1], un, conv) if mode == "hand" else [Sym("utags"), [], []], 64])
